@@ -63,6 +63,9 @@ def curated():
     out.append(D.wf("two_roots_join", {
         "t1": T(next=[dict(when="succeeded", do=["t3"])]), "t2": T(next=[dict(when="succeeded", do=["t3"])]),
         "t3": T(join=-1, next=[dict(do=["t4"])]), "t4": T()}, fates={"t1": A, "t2": A, "t3": A, "t4": ["s"]}))
+    out.append(D.wf("fail_branch_parallel", {
+        "t1": T(next=[dict(when="succeeded", do=["t3"]), dict(when="failed", do=["t2", "fail"])]),
+        "t2": T(), "t3": T(), "t4": T()}, fates={"t1": A, "t2": ["s"], "t3": ["s"], "t4": A}))
     out.append(loop_def("loop2", 2))
     return out
 
